@@ -272,3 +272,86 @@ def path_count_range(fn, pred_block, start=0, stop_blocks=None):
         memo[b] = (lo + w, hi + w)
         return memo[b]
     return go(start)
+
+
+# ---- receivers ---------------------------------------------------------------------------
+def ref_target(fn, local, depth=4):
+    """the place a reference local was created from: (base local, [field names]) following
+    reborrows and copies; None when unknown"""
+    fl = FL.flow(fn)
+    for d in fl.defs.get(local, ()):
+        if d[0] != "stmt":
+            continue
+        st = fn.blocks[d[1]][0][d[2]]
+        if st[1][1]:
+            continue
+        rv = st[2]
+        if rv[0] in ("ref", "raw"):
+            pl = rv[-1]
+            fields = [p[2] for p in pl[1] if isinstance(p, list) and p[0] == "f"]
+            if pl[1] and pl[1][0] == "*" and depth > 0:
+                inner = ref_target(fn, pl[0], depth - 1)
+                if inner is not None:
+                    return (inner[0], inner[1] + fields)
+            return (pl[0], fields)
+        if rv[0] in ("use", "cast") and depth > 0:
+            op = rv[1] if rv[0] == "use" else rv[2]
+            p = FL.op_place(op)
+            if p is not None:
+                if not p[1]:
+                    return ref_target(fn, p[0], depth - 1)
+                fields = [x[2] for x in p[1] if isinstance(x, list) and x[0] == "f"]
+                return (p[0], fields)
+    return None
+
+
+def recv_of(fn, args):
+    """(base local, fields) of the receiver (first argument) of a call"""
+    if not args:
+        return None
+    p = FL.op_place(args[0])
+    if p is None:
+        return None
+    if p[1]:
+        return (p[0], [x[2] for x in p[1] if isinstance(x, list) and x[0] == "f"])
+    return ref_target(fn, p[0])
+
+
+def value_slice_calls(fn, roots, max_steps=400):
+    """calls whose *result value* may flow into the given locals: backward over plain value
+    definitions only (use, cast, discr, field projection, ref/deref of a value, aggregate, bin/un)
+    and call destinations; does NOT follow out-parameters or points-to of mutable state.
+    Returns list of (block, callee, args)."""
+    fl = FL.flow(fn)
+    seen = set()
+    calls = []
+    work = list(roots)
+    steps = 0
+    while work and steps < max_steps:
+        l = work.pop()
+        if l in seen:
+            continue
+        seen.add(l)
+        steps += 1
+        for d in fl.defs.get(l, ()):
+            if d[0] == "stmt":
+                st = fn.blocks[d[1]][0][d[2]]
+                if st[1][0] != l:
+                    continue
+                for x in FL.rvalue_locals(st[2]):
+                    if x not in seen:
+                        work.append(x)
+            elif d[0] == "call":
+                t = fn.blocks[d[1]][1]
+                calls.append((d[1], t[1], t[2]))
+                # value-forwarding adaptors: follow their receiver / argument
+                if is_call_to(t[1], ["Option::<T>::is_some", "Option::<T>::is_none", "Option::<T>::unwrap_or",
+                                     "Option::<T>::map", "Option::<T>::and_then", "Result::<T, E>::is_ok",
+                                     "Result::<T, E>::is_err", "Deref::deref", "Clone::clone", "Option::<T>::copied",
+                                     "Option::<&T>::copied", "Option::<&T>::cloned", "Try::branch", "Not::not",
+                                     "PartialEq::eq", "PartialEq::ne", "Into::into", "From::from"]):
+                    for a in t[2]:
+                        for x in FL.op_locals(a):
+                            if x not in seen:
+                                work.append(x)
+    return calls
